@@ -186,6 +186,31 @@ pub fn one_history(id: u64, seed: u64, max_ops: usize, big: bool) {
                 };
                 let n = if default_cap && n > 3 * cap { 3 * cap } else { n };
                 let data = gen_data(n, &mut pos);
+                if rng.gen_range(0..6) == 0 {
+                    // Write::write_vectored: some prefix of the concatenation of the slices is taken, the call says how
+                    // much; the call record can only be written once that is known
+                    let cuts: Vec<usize> = { let mut c: Vec<usize> = (0..rng.gen_range(1..4)).map(|_| rng.gen_range(0..=data.len())).collect(); c.sort(); c };
+                    let mut slices: Vec<std::io::IoSlice> = vec![];
+                    let mut prev = 0;
+                    for &c in cuts.iter().chain(std::iter::once(&data.len())) {
+                        slices.push(std::io::IoSlice::new(&data[prev..c]));
+                        prev = c;
+                    }
+                    trace::hold();
+                    let r = catch(|| w.write_vectored(&slices));
+                    let taken = match &r { Ok(Ok(k)) => (*k).min(data.len()), _ => 0 };
+                    trace::release_after(json!({"ev":"wcall","op":"write","data":bytes_json(&data[..taken]),"vectored":true}));
+                    // what was not taken is not part of the written stream: rewind the pattern position
+                    pos -= data.len() - taken;
+                    isret["op"] = json!("write");
+                    match r {
+                        Ok(Ok(k)) => isret["err"] = json!(k > data.len()),
+                        Ok(Err(_)) => isret["err"] = json!(true),
+                        Err(_) => isret["panic"] = json!(true),
+                    }
+                    trace::rec(merge(isret, wstate(&w)));
+                    continue;
+                }
                 trace::rec(json!({"ev":"wcall","op":"write","data":bytes_json(&data)}));
                 let how = rng.gen_range(0..3);
                 let r = catch(|| match how {
